@@ -23,7 +23,7 @@ for id in $ids; do
     verdict="UNEXPECTED"
     if [ -n "$exp" ]; then
       verdict="expected ($exp may alarm)"
-      for a in $alarms; do pa="${a%%(*}"; case ",$exp," in *",$pa,"*) ;; *) verdict="UNEXPECTED";; esac; done
+      for a in $(echo "$alarms" | grep -o 'C[0-9][0-9](rc' | cut -c1-3); do pa="$a"; case ",$exp," in *",$pa,"*) ;; *) verdict="UNEXPECTED";; esac; done
     fi
   fi
   echo -e "$id\t${alarms:-all 12 checks exit 0}\t$verdict" | tee -a "$HERE/benign/results.tsv"
